@@ -124,9 +124,10 @@ pub struct Cfg {
     pub swarm: Vec<u32>,
 }
 
-const NAMES: &[&str] = &["a", "Sub", "S2", "x y", "名", ".hid", "d.e", "m", "@E", "e_f", "tr ", " ld"];
+// "b\\c": a backslash is an ordinary character of a name here, not a separator
+const NAMES: &[&str] = &["a", "Sub", "S2", "x y", "名", ".hid", "d.e", "m", "@E", "e_f", "tr ", " ld", "b\\c"];
 // "m.bin" / "Sub.txt": siblings of the directories "m" / "Sub" that sort before "m/..." byte-wise ('.' < '/')
-const FILES: &[&str] = &["one.bin", "two.txt", "f.bin.lz", "g.cmp", "h.cms", "q.bin", "t.txt.lz", "データ.bin", "e_one.bin", "noext", "m.bin", "Sub.txt"];
+const FILES: &[&str] = &["one.bin", "two.txt", "f.bin.lz", "g.cmp", "h.cms", "q.bin", "t.txt.lz", "データ.bin", "e_one.bin", "noext", "m.bin", "Sub.txt", "w\\e.bin"];
 const PATTERNS: &[Option<&str>] = &[None, Some("*"), Some("*.bin"), Some("*/*"), Some("**/*.txt"), Some("**/*.bin.lz"), Some("S*/*"), Some("?.bin")];
 
 fn gen_cfg(prop: &str, tier: Tier, run_seed: u64) -> Value {
@@ -797,8 +798,9 @@ enum ReadExp {
     LocErr,
     NotFound,
     Bytes(Vec<u8>),
-    /// a corrupted compressed file: what decompression does with it is C11's subject
-    Unjudged,
+    /// a corrupted compressed file (the stored bytes): what the codec does with it is C11's
+    /// subject; that the read is the codec applied to exactly these bytes is C12's
+    Unjudged(Vec<u8>),
 }
 
 fn expect_read(w: &World, h: usize, path: &str, loc: bool) -> ReadExp {
@@ -817,7 +819,7 @@ fn expect_read(w: &World, h: usize, path: &str, loc: bool) -> ReadExp {
             if hc.game.compressed_name(path) {
                 match classify_for(hc.game, &bytes) {
                     Verdict::Conforming(d) => ReadExp::Bytes(d),
-                    _ => ReadExp::Unjudged,
+                    _ => ReadExp::Unjudged(bytes),
                 }
             } else {
                 ReadExp::Bytes(bytes)
@@ -1498,7 +1500,7 @@ fn exec(ctx: &mut RunCtx, w: &mut World, op: &Op) -> Step<()> {
                 match r {
                     Ok(v) => v,
                     Err(p) => {
-                        if matches!(exp, ReadExp::Unjudged) {
+                        if matches!(exp, ReadExp::Unjudged(_)) {
                             // decompressing a corrupted stream: C11's subject
                             ctx.probe("read_of_corrupted_stream_panicked_foreign");
                             ctx.outcome("read", "panic", "");
@@ -1581,8 +1583,43 @@ fn exec(ctx: &mut RunCtx, w: &mut World, op: &Op) -> Step<()> {
                         return ctx.violation_for(owner, "return_value", "read|rejected_existing_file".to_string(), format!("read({:?}) failed: {}", path, e));
                     }
                 }
-                (ReadExp::Unjudged, _) => {
-                    ctx.probe("read_of_corrupted_stream_not_judged");
+                (ReadExp::Unjudged(stored), got) => {
+                    ctx.probe("read_of_corrupted_stream");
+                    if !open_fail {
+                        // "reading decompresses it": the read is the game's codec applied to the stored bytes,
+                        // whatever the codec makes of them
+                        let lz10 = hc.game.lz10();
+                        let direct = guarded(|| {
+                            if lz10 {
+                                mila::LZ10CompressionFormat {}.decompress(stored).ok()
+                            } else {
+                                mila::LZ13CompressionFormat {}.decompress(stored).ok()
+                            }
+                        });
+                        if let Ok(direct) = direct {
+                            let same = match (got, &direct) {
+                                (Ok(a), Some(b)) => a == b,
+                                (Err(_), None) => true,
+                                _ => false,
+                            };
+                            if !same {
+                                return ctx.violation_for(
+                                    "C12",
+                                    "codec_composition",
+                                    "read|differs_from_codec_on_stored_bytes".to_string(),
+                                    format!(
+                                        "read({:?}) = {}, the game's codec applied to the {} stored bytes {}.. gives {}",
+                                        path,
+                                        match got { Ok(a) => format!("Ok({} bytes)", a.len()), Err(e) => format!("Err({})", err_kind(e)) },
+                                        stored.len(),
+                                        hex(&stored[..stored.len().min(16)]),
+                                        match &direct { Some(b) => format!("Ok({} bytes)", b.len()), None => "an error".to_string() }
+                                    ),
+                                );
+                            }
+                            ctx.probe("read_of_corrupted_stream_matches_codec");
+                        }
+                    }
                 }
             }
             verify_disk(ctx, w, &[w.m.clone()], owner, "read", None, false)
@@ -1950,6 +1987,34 @@ fn run(cfgv: &Value, ctx: &mut RunCtx) -> Step<()> {
                 handles.push(Handle { fs, cfg: hc.clone() })
             }
             Err(e) => return ctx.violation_for("C12", "constructor", "new|rejected_valid_stack".to_string(), format!("LayeredFilesystem::new failed on existing directories: {}", e)),
+        }
+    }
+    // C12: the codec configured for the game and the layer that takes the writes, as the handle reports them
+    if prop == "C12" {
+        for h in &handles {
+            let be = h.cfg.game.big_endian();
+            let (e, t, lang, wl) = ctx.mila("fs.configuration", || {
+                (
+                    matches!(h.fs.endian(), mila::Endian::Big),
+                    matches!(h.fs.text_archive_format(), mila::TextArchiveFormat::ShiftJIS),
+                    h.fs.language(),
+                    h.fs.write_layer().root().to_string(),
+                )
+            })?;
+            if e != be || t != be {
+                return ctx.violation_for("C12", "codec_configuration", "configuration|codec".to_string(), format!("{:?}: endian() big = {}, text_archive_format() Shift-JIS = {}, the game's codec is {}", h.cfg.game, e, t, if be { "big-endian / Shift-JIS" } else { "little-endian / UTF-16" }));
+            }
+            if lang != h.cfg.lang.mila() {
+                return ctx.violation_for("C12", "codec_configuration", "configuration|language".to_string(), format!("language() is {:?}, the handle was built for {:?}", lang, h.cfg.lang.mila()));
+            }
+            let top = layer_dir(&root, *h.cfg.stack.last().unwrap());
+            let same = match (std::fs::canonicalize(&wl), std::fs::canonicalize(&top)) {
+                (Ok(a), Ok(b)) => a == b,
+                _ => false,
+            };
+            if !same {
+                return ctx.violation_for("C12", "codec_configuration", "configuration|write_layer".to_string(), format!("write_layer() is rooted at {:?}, the highest-priority layer is {:?}", wl, top));
+            }
         }
     }
     // C14: the handle's localizer is the game's, checked on a few paths up front
